@@ -48,6 +48,8 @@ class ChildOperationExecutor(OperationExecutor[T]):
     Handles large payload scenarios with ReplayChildren mode.
     """
 
+    runs_user_code = True
+
     def __init__(
         self,
         func: Callable[[], T],
